@@ -174,6 +174,22 @@ def static_callers(repo):
     stores = [nd for f in cls.body if isinstance(f, ast.FunctionDef) for nd in ast.walk(f)
               if isinstance(nd, ast.Attribute) and nd.attr == 'path' and isinstance(nd.ctx, ast.Store)]
     out.append(_res('init.root_never_reassigned', not stores, stores[0].lineno if stores else 0))
+    # the per-call contract of _resolve_path carries over to its callers only if each call really runs the body: a
+    # memoising decorator keyed on the filesystem (FileSystem.__eq__/__hash__ look at the root path alone, not at
+    # constrain_path) would let an unconstrained twin answer for a constrained one
+    deco = [(f, d) for f in cls.body if isinstance(f, ast.FunctionDef) for d in f.decorator_list]
+    def touches_files(f):
+        return any(isinstance(nd, ast.Call) and (_is_resolve_call(nd) or ast.unparse(nd.func) in FS_PRIMITIVES
+                                                  or ast.unparse(nd.func).startswith('self.'))
+                   for nd in ast.walk(f))
+    memo = [(f, d) for f, d in deco if any(w in ast.unparse(d) for w in ('cache', 'memo')) and touches_files(f)]
+    deco = [(f, d) for f, d in deco if touches_files(f)]
+    plain = all(ast.unparse(d).split('(')[0] in ('property', 'staticmethod', 'classmethod', 'override', 'deprecated',
+                                                 'overload', 'abstractmethod') for f, d in deco)
+    out.append(smt.shape('callers.no_memoised_lookup_shared_between_filesystems', plain, bool(memo),
+                         memo[0][0].lineno if memo else 0,
+                         'decorators on RawFileSystem methods: ' + ', '.join(sorted({ast.unparse(d) for _, d in deco})) if deco
+                         else 'no decorators on RawFileSystem methods', backend='ast-effects'))
     return out
 
 
@@ -207,7 +223,7 @@ def _inside(real, root):
 COMPONENTS = ['..', '.', 'sub', 'root', 'rootx', 'in.txt', 'sib.txt', 'deep.txt', 'ok.txt', 'other', 'o.txt', 'top.txt']
 
 
-def _probe(fs_factory, root, path):
+def _probe(fs_factory, root, path, allowed=None):
     """All lookups of one path on one filesystem; returns a description of an escape or None."""
     from srctools.filesys import RootEscapeError
     fs = fs_factory()
@@ -231,8 +247,14 @@ def _probe(fs_factory, root, path):
             else:
                 data = None
                 for file in fs.walk_folder(path):
-                    with file.open_str() as f:
-                        got = f.read()
+                    if allowed is not None and file.path.replace('\\', '/') not in allowed:
+                        return (f'walk_folder({path!r}) yields {file.path!r}, which is not the name of any file located '
+                                f'inside the root')
+                    try:
+                        with file.open_str() as f:
+                            got = f.read()
+                    except (RootEscapeError, OSError):
+                        continue        # a listed name that cannot be opened serves no data; keep checking the rest
                     if not _inside(got, root):
                         return f'walk_folder({path!r}) yields {file.path!r} whose content is {got!r}'
         except (RootEscapeError, FileNotFoundError, IsADirectoryError, NotADirectoryError, PermissionError):
@@ -264,7 +286,23 @@ def _job_paths(job):
             factory = lambda: FileSystemChain(RawFileSystem(root))
         else:
             factory = lambda: FileSystemChain((RawFileSystem(root), 'sub'))
-        bad = _probe(factory, root, path)
+        # the names a walk may yield: those of the files really located below the root (relative to the walked
+        # member's folder - a chain over the subfolder 'sub' may be asked for '..', which is still inside the root),
+        # found independently with os.walk
+        top = os.path.join(root, 'sub') if kind == 'chain_sub' else root
+        # an unconstrained filesystem on the same folder asks first: nothing it learnt may be served by the constrained one
+        twin = RawFileSystem(root, constrain_path=False)
+        for q in (path, os.path.join('sub', path) if kind == 'chain_sub' else path):
+            try:
+                twin[q]
+                q in twin
+            except Exception:
+                pass
+        allowed = set()
+        for dirpath, _dirs, fnames in os.walk(root):
+            for fn in fnames:
+                allowed.add(os.path.relpath(os.path.join(dirpath, fn), top).replace('\\', '/'))
+        bad = _probe(factory, root, path, allowed)
         return bad
     finally:
         shutil.rmtree(base, ignore_errors=True)
@@ -273,7 +311,8 @@ def _job_paths(job):
 @bounded('C18.B-paths', bound='real tree with root/, root/sub/, sibling rootx/, root/rootx/, other/ and a file above the '
          'root; all paths of <= 3 components (thorough: <= 4) over 12 names incl. "..", ".", root, rootx; both '
          'separators; relative, absolute (root / parent) and leading-separator forms; roots with and without trailing '
-         'separator; plain, chained and subfolder-chained filesystems; open_str/open_bin/[]/in/walk_folder',
+         'separator; plain, chained and subfolder-chained filesystems; open_str/open_bin/[]/in/walk_folder (content of '
+         'everything opened, and every name a walk yields, must belong to a file located inside the root)',
          rule='one case per (filesystem kind, path); non-trivial when the path contains ".." or an absolute prefix')
 def b_paths(ctx):
     maxlen = 4 if ctx.thorough else 3
@@ -351,6 +390,10 @@ for _c in PROOFS:
 
 
 MUTATIONS = [
+    dict(name='get_file_memoised_across_filesystems', file='filesys.py',
+         old="    def _get_file(self, name: str) -> File[Self]:\n        if os.path.isfile(self._resolve_path(name)):",
+         new="    @__import__('functools').lru_cache(maxsize=4096)\n    def _get_file(self, name: str) -> File[Self]:\n        if os.path.isfile(self._resolve_path(name)):",
+         expect='callers.no_memoised_lookup_shared_between_filesystems'),
     dict(name='prefix_test_only', file='filesys.py',
          old="            root = self.path if self.path.endswith(os.sep) else self.path + os.sep\n            if not abs_path.startswith(root):",
          new="            root = self.path\n            if not abs_path.startswith(root):", expect='_resolve_path'),
